@@ -53,5 +53,12 @@ func RecoverNativeDenom(denom, sourcePort, sourceChannel string) (string, error)
 		return "", errors.New("orbiter supports only native coins")
 	}
 
+	// A voucher held on Noble is named by the hash of its trace. Such a name
+	// carries no port and channel, so it parses as a native denom and ICS-20
+	// releases it when the counterparty sends the hash instead of the trace.
+	if strings.HasPrefix(unprefixedDenom, transfertypes.DenomPrefix+"/") {
+		return "", errors.New("orbiter supports only native coins")
+	}
+
 	return unprefixedDenom, nil
 }
